@@ -32,11 +32,15 @@ try:
 except Exception as exc:  # the tie is broken: keep the committed layout, search for a failing input
     extract_err = '%s: %s' % (type(exc).__name__, exc)
 chk.lean(['VermouthProps.C16', 'VermouthProps.C16Tables', 'VermouthProps.C16File', 'VermouthProps.C16Gro',
-          'VermouthProps.C16Conect', 'VermouthProps.C16Format', 'VermouthProps.C16Total'],
+          'VermouthProps.C16Conect', 'VermouthProps.C16Format', 'VermouthProps.C16Total', 'VermouthProps.C16Merge',
+          'VermouthProps.C16Model'],
          'driver_c16', generated=gen)
 chk.extra['phase_s'] = {'lean_done': round(chk.elapsed(), 1)}
 if extract_err:
     chk.broken.append(('extract:C16Layout', extract_err))
+chk.extra['anchor_coverage_note'] = ('the real writers and readers run in forked workers; their executed lines are sent back '
+                                     '(Check.worker_lines / merge_worker_lines) and merged, so anchor_line_coverage counts '
+                                     'worker lines too (the "in-process" wording of its tool field predates that)')
 chk.trusted.append('harness/c16_extract.py (AST translator of format strings / column tables, cross-checked against '
                    'the format strings seen at run time), harness/c16.py oracle; CPython float formatting on the '
                    '0.001 grid')
@@ -678,7 +682,7 @@ def process(job):
             run_gro(cid, case)
     except Exception:
         err = ('harness:' + cid, tail(traceback.format_exc()))
-    return list(records), dict(counts), set(beyond), err
+    return list(records), dict(counts), set(beyond), err, chk.worker_lines()
 
 
 # the full model: extra node attributes and keyword arguments, hand-made PDB and GRO texts (harness/c16_full.py)
@@ -715,7 +719,8 @@ is_hist = [c[1]['kind'] == 'history' for c in cases]
 with ctx.Pool(nproc) as pool, ctx.Pool(max(1, nproc // 2), maxtasksperchild=1) as hpool:
     handles = {i: (hpool if is_hist[i] else pool).apply_async(process, (cases[i],)) for i in order}
     results = [handles[i].get() for i in range(len(cases))]
-for recs, cts, bey, err in results:
+for recs, cts, bey, err, wlines in results:
+    chk.merge_worker_lines(wlines)     # line coverage of the anchored functions inside the forked workers
     all_records.extend(recs)
     all_beyond |= bey
     for k, v in cts.items():
